@@ -215,6 +215,16 @@ def run_history(h, canary, registered, use_oracle=True):
     import pg
     defn = new_def(h)
     live = build(defn, None, h.get("backend", "lambda"))
+    # a second, unrelated live model that is evaluated just before every evaluation of `live`: recompile flags and
+    # compiled closures are per model, so this must never influence `live` (it does if they are shared between instances)
+    bystander = None
+    try:
+        d0 = new_def(h)
+        bystander = build(d0, None, h.get("backend", "lambda"))
+        if d0["params"]:
+            bystander.parameters = [0.5] * len(d0["params"])
+    except BaseException:      # noqa: B902
+        bystander = None
     fresh = Fresh(h)
     x = np.array(h["x"])
     seen, fails = [], []
@@ -252,6 +262,11 @@ def run_history(h, canary, registered, use_oracle=True):
                 vals = newvals
         else:
             e = op["e"]
+            if bystander is not None:
+                try:
+                    getattr(bystander, e)(x, 0.0)
+                except BaseException:      # noqa: B902
+                    pass
             try:
                 got = np.asarray(getattr(live, e)(x, 0.0), dtype=float)
                 status = 1
